@@ -88,6 +88,10 @@ def run(F, R):
     from .C03 import pop_rule
     pop_rule(F, R, 'V12')
     v13_accounting_on_table_entry(F, R)
+    # V14: a credit request is answered and a credit update refreshes the peer's credit only if each is decoded as what it is:
+    # operation codes decode to the protocol's event kinds (C18.X1)
+    from .C18 import x10_event_decoding
+    guard(R, 'V14', 'event-decoding', lambda: x10_event_decoding(F, RuleProxy(R, {'X1': 'V14'})))
     v5_fwd(F, R)
     v6_ring(F, R)
     v6b_is_empty(F, R)
